@@ -243,6 +243,8 @@ def lab_job(args):
             if "count" in what:
                 lab.count(max_n)
             events += lab.events
+            if "count" in what:
+                events += lab_count_after_fault(fid, dict(derived_forms(c, s))[fid], namer, max_n)
             if "objects" in what:
                 fresh = dict(derived_forms(c, s))[fid]
                 events += lab_objects(fid, fresh, namer, min(max_n, 5))
@@ -292,6 +294,40 @@ def lab_objects(fid, rule, namer, max_n) -> List[dict]:
 
 class _InjectedFault(Exception):
     pass
+
+
+def lab_count_after_fault(fid, rule, namer, max_n) -> List[dict]:
+    """A counting request aborted by a one-off fault in a provider (as a KeyboardInterrupt or RecursionError would),
+    followed by the same requests again: the terms must still be exactly right."""
+    events = []
+    state = {"calls": 0, "armed": True}
+
+    def mk(ch):
+        def get(m):
+            state["calls"] += 1
+            if state["armed"] and state["calls"] == 4:
+                state["armed"] = False
+                raise _InjectedFault()
+            return ch.get_terms(m) if m >= 0 else Counter()
+
+        return get
+
+    rule.subterms = tuple(mk(ch) for ch in rule.children)
+    try:
+        rule.get_terms(max_n)
+    except _InjectedFault:
+        pass
+    except Exception:
+        pass
+    if state["armed"]:
+        return events
+    parent = namer(rule.comb_class)
+    for n in range(max_n + 1):
+        try:
+            events.append({"op": "formterms", "form": fid + "+fault", "c": parent, "n": n, "terms": terms_list(rule.get_terms(n))})
+        except Exception as e:
+            events.append({"op": "formterms", "form": fid + "+fault", "c": parent, "n": n, "terms": [[[-7], 1]], "error": type(e).__name__})
+    return events
 
 
 def lab_objects_after_fault(fid, rule, namer, max_n) -> List[dict]:
